@@ -291,8 +291,9 @@ func checkC20(c *Ctx) {
 	}
 
 	// ---------------- R20.3 ----------------
-	sh := c.Method(ZapPath, "AtomicLevel", "serveHTTP")
-	if c.Anchor("R20.3", "zap.AtomicLevel.serveHTTP", sh != nil) {
+	// the handler as a whole: the exported method, whatever unexported helper it delegates to explored inline
+	sh := c.Method(ZapPath, "AtomicLevel", "ServeHTTP")
+	if c.Anchor("R20.3", "zap.AtomicLevel.ServeHTTP", sh != nil) {
 		name := sh.String()
 		// Path exploration (helpers inline; the decoders opaque): what every combination of request method and decode
 		// outcome does to the level and to the response.
@@ -429,6 +430,10 @@ func checkC20(c *Ctx) {
 						rest = append(rest, t)
 					}
 				}
+				// a failure to write the response is answered with a 500 after the fact; it changes nothing else
+				if n := len(rest); n >= 2 && rest[n-1] == "status500" && strings.HasPrefix(rest[n-2], "body-") {
+					rest = rest[:n-1]
+				}
 				r := strings.Join(rest, " ")
 				ok := false
 				switch method {
@@ -497,19 +502,6 @@ func checkC20(c *Ctx) {
 			}
 		}
 		c.Check(n == 2, "R20.3", dr.String(), "relays-decoder", dr.Pos(), "both content-type arms relay their decoder's (level, error) unchanged")
-	}
-	shw := c.Method(ZapPath, "AtomicLevel", "ServeHTTP")
-	if c.Anchor("R20.3", "zap.AtomicLevel.ServeHTTP", shw != nil) {
-		n := 0
-		for _, cl := range Calls(shw) {
-			if IsCallTo(cl, "(go.uber.org/zap.AtomicLevel).serveHTTP") {
-				n++
-			}
-			if IsCallTo(cl, "(go.uber.org/zap.AtomicLevel).SetLevel") {
-				n = -100
-			}
-		}
-		c.Check(n == 1, "R20.3", shw.String(), "delegates", shw.Pos(), "ServeHTTP only delegates to serveHTTP and never sets the level itself")
 	}
 
 	// ---------------- R20.4 ----------------
